@@ -20,7 +20,10 @@ from hypcommon import STATS, hyp_main
 
 REPO = os.environ.get("VERIF_REPO", "/repo")
 SCRATCH = os.environ.get("VERIF_SCRATCH") or "/dev/shm/verif-c20-%d" % os.getpid()
-TREE = os.path.join(SCRATCH, "tree")
+# The scratch checkout lives below directories whose names merely START like a build directory (GitLab's /builds/<group>/<project>, a
+# home directory "builder"): where a checkout is must not change what the generator makes of it. (A component named exactly "build" is
+# avoided: the pinned generator already skips every path containing "/build/".)
+TREE = os.path.join(SCRATCH, "builds", "acme-build", "cmake-build-debug.keep", "tree")
 
 
 def prepare():
@@ -156,6 +159,8 @@ def run(case):
         if gen2 != committed():
             return "re-running the generator over the existing header changes it: " + first_diff(committed(), gen2)
         return lines_oracle()
+    if kind == "twin":
+        return run_twin(case)
     rel = case["file"]
     p = os.path.join(TREE, rel)
     if not os.path.exists(p):
@@ -209,6 +214,51 @@ def run(case):
     return ""
 
 
+def run_twin(case):
+    """A new private header whose file NAME already exists in another directory of the sources (filters/utils.h next to utils.h) is
+    included from a .cpp of its own directory. Its text must reach the header exactly once and nothing that was there may be lost."""
+    rel = case["file"]  # the including .cpp
+    p = os.path.join(TREE, rel)
+    if not os.path.exists(p) or not rel.endswith(".cpp"):
+        return ""
+    d = os.path.dirname(p)
+    names = sorted({os.path.basename(x) for x in sources() if x.endswith(".h") and not os.path.exists(os.path.join(d, os.path.basename(x)))})
+    if not names:
+        return ""
+    name = names[int(case["line"]) % len(names)]
+    twin = os.path.join(d, name)
+    marker = ("VERIFMARK_%s" % case["marker"]).encode()
+    with open(p, "rb") as f:
+        orig = f.read()
+    lines = orig.split(b"\n")
+    inc = [i for i, l in enumerate(lines) if re.search(rb'#\s*include "', l)]
+    at = inc[0] if inc else 0
+    try:
+        with open(twin, "wb") as f:
+            f.write(b"#pragma once\n\n#define " + marker + b" 1\n")
+        with open(p, "wb") as f:
+            f.write(b"\n".join(lines[:at] + [b'#include "' + name.encode() + b'"'] + lines[at:]))
+        gen, err = generate(previous=committed(), edited=p) if case.get("stale") else generate()
+    finally:
+        with open(p, "wb") as f:
+            f.write(orig)
+        if os.path.exists(twin):
+            os.unlink(twin)
+    STATS.note_case(dict(file=rel, twin=name, kind="twin"), True)
+    STATS.cls("kind_twin_header_with_an_existing_file_name")
+    if gen is None:
+        return "generator failed on a tree with a second header named %s: %s" % (name, err)
+    where = "%s including a new %s/%s" % (rel, os.path.basename(d), name)
+    n = gen.count(marker)
+    if n != 1:
+        return "%s: the new header's text appears %d times in the generated header (expected exactly once)" % (where, n)
+    have = collections.Counter(l for l in gen.split(b"\n") if l.strip())
+    for l, k in collections.Counter(l for l in committed().split(b"\n") if l.strip()).items():
+        if have[l] < k:
+            return "%s: line %r of the committed header occurs %d times instead of %d in the generated one (text of another file was dropped)" % (where, l[:120], have[l], k)
+    return ""
+
+
 def main():
     prepare()
     try:
@@ -242,7 +292,7 @@ def main():
             STATS.count("all_files_sweep", len(files))
         strat = st.fixed_dictionaries(
             dict(
-                kind=st.sampled_from(["insert", "insert", "append"]),
+                kind=st.sampled_from(["insert", "insert", "append", "insert", "append", "twin"]),
                 file=st.sampled_from(files),
                 line=st.integers(0, 10000),
                 marker=st.integers(0, 2**32 - 1).map(lambda x: "%08x" % x),
